@@ -24,6 +24,8 @@ Inductive task :=
      (* let (x1, x2) = futures::join!(request(op1), request(op2)) *)
 | TBothL (tg1 : nat) (e1 : expr) (x1 : nat) (tg2 : nat) (e2 : expr) (x2 : nat) (k : task)
      (* join!(legacy_capability.request(op1), ctx.request(op2)): the two APIs awaited together *)
+| TBothJ (h : nat) (tg : nat) (e : expr) (x : nat) (k : task)
+     (* let ((), x) = join!(h, ctx.request(op)): a JoinHandle awaited together with a request *)
 | TRace (tg1 : nat) (e1 : expr) (tg2 : nat) (e2 : expr) (x : nat) (k : task)
      (* x = select_biased! { a = request(op1) => a, b = request(op2) => b }; the loser is dropped *)
 | THost (names : list nat) (meff mev : nat) (main : task) (extra : list task) (k : task).
